@@ -137,7 +137,7 @@ def swap(
         dim[1, 1] = np.round(dim[1, 1])
         num_sys = 2
     else:
-        num_sys = len(dim)
+        num_sys = dim.shape[-1]
 
     # Verify that the input sys makes sense.
     if any(sys) < 1 or any(sys) > num_sys:
